@@ -8,6 +8,7 @@
 
 #include <avel/Cache.hpp>
 #include <sys/mman.h>
+#include <unistd.h>
 
 using namespace vh;
 
@@ -22,7 +23,8 @@ static void level_cases(int lvl) {
     const PC classes[] = {
         {"valid", mid + 1024}, {"null", nullptr}, {"prot", g_pages + 2 * PG + 128},
         {"prot_before", g_pages + 64}, {"end", mid + PG - 64}, {"low", reinterpret_cast<unsigned char*>(8)}};
-    const std::size_t counts[] = {0, 1, 2, 63, 64, 65, 127, 128, 129, 4095, 4096, 4097, 3 * 4096 + 5};
+    const std::size_t counts[] = {0, 1, 2, 63, 64, 65, 127, 128, 129, 4095, 4096, 4097, 3 * 4096 + 5,
+                                 (std::size_t(1) << 32) - 32, (std::size_t(1) << 32) + 100};   // beyond 32 bits: the call must still return
     for (const PC& pc : classes)
         for (unsigned off = 0; off < 64; off += (g_tier ? 1 : 7))
             for (std::size_t n : counts)
@@ -30,6 +32,8 @@ static void level_cases(int lvl) {
                     for (int typed = 0; typed < 2; ++typed) {
                         unsigned char* p = pc.p ? pc.p + off : (off ? reinterpret_cast<unsigned char*>(std::uintptr_t(off)) : nullptr);
                         if (typed && n > 4097) continue;
+                        if (n > (1u << 20) && (off % 21 != 0 || std::strcmp(pc.name, "valid") != 0)) continue;   // a few long runs only
+                        if (n > (1u << 20)) alarm(25);   // watchdog: a hint loop that never terminates
                         std::memcpy(g_copy, mid, PG);
                         const void* vp = p;
                         opaque(vp);
@@ -45,12 +49,13 @@ static void level_cases(int lvl) {
                                 else avel::prefetch_read<L, double>(dp, nn);
                             }
                         });
+                        alarm(0);
                         int changed = std::memcmp(g_copy, mid, PG) != 0;
                         char buf[256];
                         std::snprintf(buf, sizeof(buf),
                                       "{\"o\":\"prefetch\",\"k\":\"p\",\"rw\":\"%s\",\"level\":%d,\"typed\":%d,\"pclass\":\"%s\",\"off\":%u,\"n\":%lu,"
                                       "\"memchanged\":%d,\"sig\":\"%s\"}",
-                                      rw ? "w" : "r", lvl, typed, pc.name, off, (unsigned long) (n > 100000 ? 100000 : n), changed, signame(sg));
+                                      rw ? "w" : "r", lvl, typed, pc.name, off, (unsigned long) (n <= 100000 ? n : (n < (std::size_t(1) << 32) ? 100001 : 100002)), changed, signame(sg));
                         emit_raw(buf, "prefetch", rw ? "write" : "read");
                     }
 }
